@@ -79,6 +79,9 @@ type entryRec struct {
 	WriteTick   int64 `json:"write_tick"`
 	Writers     int   `json:"writers"` // number of concurrent WriteLog callers in the append action
 	Garbage     bool  `json:"garbage,omitempty"`
+	// Gen: generation of the log partition (0 = the first log; > 0: the log was re-created after the WAL garbage
+	// collector had removed the partition, its sequences start at 0 again)
+	Gen int `json:"gen,omitempty"`
 	// Reject: the entry is one the local replicator cannot apply (corrupt | garbage); it carries no rows
 	Reject string `json:"reject,omitempty"`
 	// Raced: a data flush of the family started after the replicator's WriteRows of this entry had returned and before
